@@ -70,6 +70,12 @@ func genC10(c *Ctx) {
 				}
 			}
 			rec(nil, 0)
+			// index boundaries: one out-of-range (or wrapped: v mod 256 in range) index per run, then the protocol goes on
+			for _, v := range []int{-257, -256, -255, -2, -1, n, n + 1, 254, 255, 256, 256 + dealer, 257, 258, 511, 512, 513, 65536, 65537, 1 << 32, 1<<32 + 1, 1<<40 + 2, -(1 << 32), -(1<<32 - 1)} {
+				for _, call := range []string{fmt.Sprintf("B:%d:%s", v, vec), fmt.Sprintf("B:%d:", v), fmt.Sprintf("P:%d:%s", v, share), fmt.Sprintf("F:%d", v)} {
+					run("index-boundary", []string{"S:" + good, call, "B:0:" + vec, "P:0:" + share, "T", "T", "E"})
+				}
+			}
 			// random longer sequences biased towards the legal order
 			for i := 0; i < nRand; i++ {
 				l := 2 + c.intn(randLen)
